@@ -2,6 +2,9 @@
 //!
 //! `vf-nexus <Cxx> <quick|thorough|replay FILE>`; one module per property,
 //! shared helpers in `common`.
+mod c17;
+mod c18;
+mod c19;
 mod c20;
 mod common;
 
@@ -10,13 +13,28 @@ use vf_core::Runner;
 fn main() {
     let prop = std::env::args().nth(1).unwrap_or_default();
     match prop.as_str() {
+        "C17" => {
+            let mut r = Runner::from_env("C17", "exploration");
+            c17::run(&mut r);
+            r.finish();
+        }
+        "C18" => {
+            let mut r = Runner::from_env("C18", "exploration");
+            c18::run(&mut r);
+            r.finish();
+        }
+        "C19" => {
+            let mut r = Runner::from_env("C19", "exploration");
+            c19::run(&mut r);
+            r.finish();
+        }
         "C20" => {
             let mut r = Runner::from_env("C20", "exploration");
             c20::run(&mut r);
             r.finish();
         }
         other => {
-            eprintln!("usage: vf-nexus <C20> <quick|thorough|replay FILE> (got {other:?})");
+            eprintln!("usage: vf-nexus <C17|C18|C19|C20> <quick|thorough|replay FILE> (got {other:?})");
             std::process::exit(2);
         }
     }
